@@ -10,7 +10,7 @@ from .common import *
 from .fm import *
 
 HINT = {'reward': 10 ** 6, 'fee': 1000, 'paid_fee': 1000, 'paid_reward': 10 ** 6, 'junk': 5, 'now_s': 20 * DAY + 5, 'epoch': 20, 'start': 21, 'end': 31,
-        'f1_funded': 10 ** 6, 'f1_claimed': 0, 'f2_funded': 10 ** 6, 'f2_claimed': 10 ** 6, 'expand': 5 * 10 ** 5, 'rate': 10 ** 5, 'cur_end': 30,
+        'cfg_epoch_buffer': 14, 'f1_funded': 10 ** 6, 'f1_claimed': 0, 'f2_funded': 10 ** 6, 'f2_claimed': 10 ** 6, 'expand': 5 * 10 ** 5, 'rate': 10 ** 5, 'cur_end': 30,
         'cur_start': 10, 'funded': 2 * 10 ** 6, 'claimed': 10 ** 5, 'sender_bal': 10 ** 7}
 
 
@@ -50,7 +50,7 @@ def _replay_create(same_denom, shape):
                       'lp_denom': rj(LP1), 'start_epoch': m['start'], 'preliminary_end_epoch': m['end'], 'curve': None,
                       'farm_asset': coin_j('uusd', reward), 'farm_identifier': None}}}}}}]
         sc = {'setup': {'time_nanos': '0', 'epoch': {'genesis': '0', 'duration': str(DAY)},
-                        'farm': {'create_farm_fee': {'denom': fee_denom, 'amount': str(fee)}, 'max_concurrent_farms': 2}},
+                        'farm': {'create_farm_fee': {'denom': fee_denom, 'amount': str(fee)}, 'max_concurrent_farms': 2, 'max_farm_epoch_buffer': m.get('cfg_epoch_buffer', 14)}},
               'steps': steps}
         return sc, len(steps) - 1
     return generic_replay(build)
@@ -64,7 +64,8 @@ def _ob_create(same_denom, shape):
         fee = I.sym('fee', hi=U128)
         reward = I.sym('reward', lo=0, hi=U128)
         fee_denom = 'uusd' if same_denom else 'uom'
-        fm_config(I, fee=coin_v(fee_denom, fee))
+        buf = I.sym('cfg_epoch_buffer', hi=(1 << 32) - 1)            # max_farm_epoch_buffer: whatever the owner configured
+        fm_config(I, fee=coin_v(fee_denom, fee), buffer=buf)
         start = I.sym('start', hi=U64)
         end = I.sym('end', hi=U64)
         funds = []
@@ -100,7 +101,7 @@ def _ob_create(same_denom, shape):
             I.observe('status', 'err')
             if shape == 'exact' or (shape == 'reward_only' and not same_denom):
                 # exactly reward + fee attached (a zero fee needs no coin): only parameter validation may reject
-                valid = smt.And(reward >= 1000, start > ep, start < end, start <= ep + 14, end - start <= reward)
+                valid = smt.And(reward >= 1000, start > ep, start < end, start <= ep + buf, end - start <= reward)
                 pays_exactly = True if shape == 'exact' else smt.Eq(fee, 0)
                 if shape == 'exact' and not same_denom:
                     pays_exactly = fee >= 1          # a zero-amount coin cannot be attached
@@ -124,7 +125,7 @@ def _ob_create(same_denom, shape):
         I.check('fee_collector_gets_exactly_the_fee', smt.Eq(b.get(FC, fee_denom) - pre.get(FC, fee_denom), fee))
         I.check('budget_is_full_reward', smt.And(smt.Eq(f.get('farm_asset').get('amount'), reward), smt.Eq(f.get('claimed_amount'), 0)))
         I.check('owner_is_sender', f.get('owner') == 'creator')
-        I.check('epochs_valid', smt.And(f.get('start_epoch') > ep, f.get('start_epoch') <= ep + 14, f.get('start_epoch') < f.get('preliminary_end_epoch')))
+        I.check('epochs_valid', smt.And(f.get('start_epoch') > ep, f.get('start_epoch') <= ep + buf, f.get('start_epoch') < f.get('preliminary_end_epoch')))
         I.check('emission_is_floor', smt.Eq(f.get('emission_rate'), I.ctx.fdiv(reward, simp(f.get('preliminary_end_epoch') - f.get('start_epoch')))))
         I.check('minimum_reward', reward >= 1000)
     return s
